@@ -493,6 +493,10 @@ var All = []Body{
 			for _, q := range []byte{0, '"', '\''} {
 				out := html.EscapeAttrVal(&buf, pick(0, s), q, v%2 == 1)
 				fmt.Fprintf(&sb, "%q ", out)
+				if len(out) >= 1 && (out[0] == '"' || out[0] == '\'') && s != "" {
+					out[0] = '`' // the result lies in the caller's buffer or is the caller's argument
+					fmt.Fprintf(&sb, "%q ", out)
+				}
 			}
 			step()
 		}
@@ -525,8 +529,15 @@ var All = []Body{
 	{"xml-escape", false, func(v int, step func()) string {
 		var sb strings.Builder
 		var buf []byte
-		for _, s := range []string{"plain", "it's", "say \"x\"", "both ' and \"", "a&b<c", "x]]>y", "<<<<<<&&&&&&"} {
-			fmt.Fprintf(&sb, "%q ", xml.EscapeAttrVal(&buf, pick(0, s)))
+		for _, s := range []string{"plain", "it's", "say \"x\"", "both ' and \"", "a&b<c", "x]]>y", "<<<<<<&&&&&&", ""} {
+			av := xml.EscapeAttrVal(&buf, pick(0, s))
+			fmt.Fprintf(&sb, "%q ", av)
+			if len(av) >= 2 {
+				// the result is the caller's own (it is built in the caller's buffer): switching its quotes in place is allowed
+				av[0], av[len(av)-1] = '`', '`'
+				step()
+				fmt.Fprintf(&sb, "%q ", av)
+			}
 			if v%2 == 0 {
 				step()
 			}
